@@ -1313,7 +1313,7 @@ func (e *Env) method(recv reflect.Value, name string, args []Val) (Val, *Err) {
 				return Val{}, err
 			}
 			return Val{K: KNil}, nil
-		case "Boom", "BoomB", "Two":
+		case "Boom", "BoomB", "Two", "BoomI", "BoomV", "BoomE":
 			return Val{}, errf(EMethod, "failing method %s", name)
 		case "NilSub":
 			return Val{K: KGo, R: reflect.ValueOf((*facts.Sub)(nil))}, nil
